@@ -145,7 +145,7 @@ func c11Op(t *rapid.T, str func(max int) string, sub func(s string, max int) str
 		if rapid.IntRange(0, 15).Draw(t, "widepad") == 0 {
 			// widths around buffer sizes (2^12 .. 2^16 bytes) divided by the
 			// 1, 2, 3 and 4 bytes of a pad character
-			width = gen.Pick(t, "bigwidth", []int{100, 1023, 1366, 2049, 2731, 2732, 4097, 5462, 6827, 6829, 8193, 10923, 10925, 16385, 21846, 21847, 32769})
+			width = gen.Pick(t, "bigwidth", []int{100, 1023, 1366, 2049, 2731, 2732, 4097, 5462, 6827, 6829, 8193, 10923, 10925, 16385, 21846, 21847, 32769, 65537, 262145, 1000000, 1000001, 1048577})
 		}
 		w := ast.Lit(jv.VInt(int64(width)))
 		args := []ast.Arg{ast.A(S), ast.A(w)}
